@@ -288,7 +288,10 @@ class Statement(object):
             return
 
         if self.operand.value.is_address_expression():
-            self.code_pkg.additional = self.operand.value.calculate_address_offset(statements)
+            try:
+                self.code_pkg.additional = self.operand.value.calculate_address_offset(statements)
+            except ValueError as error:
+                raise TranslationError(str(error), self)
 
         if self.operand.value.is_address():
             self.code_pkg.additional = statements[self.operand.value.int].code_pkg.address
